@@ -60,6 +60,9 @@ pub const TEXTS: &[S] = &[
     "unicode: é 世界 😀",
     "tab\there",
     "`code` and *stars* and <angle> & amp",
+    "q&a b&w black&white &amp; &#8617; &x &# AT&T a&",
+    "tail& &head mid&dle &;",
+
     "\nstarts with an empty line",
     "\n",
     "\r\nCRLF first\r\nand second",
